@@ -25,6 +25,16 @@ for p in mutants/c20-*${1:-}*.patch; do
     [ -n "$failed" ] && tests="FAIL ($failed)"
   fi
   log=/tmp/c20-mut-$name.log
+  case "$name" in c20-race-*)
+    # concurrency mutants are for the separate free-running pass under the race detector (exit 66 = data race reported)
+    VERIF_REPO="$WT" VERIF_RACE=1 VERIF_NOEVIDENCE=1 C20_RACE_PASS=1 timeout 1800 ./run.sh C20 quick > "$log" 2>&1
+    rc=$?
+    races=$(grep -c 'WARNING: DATA RACE' "$log")
+    caught=NO; { [ "$rc" = 66 ] || [ "$rc" = 1 ]; } && caught=yes
+    echo "| $name | $tests | race pass: $caught (exit $rc, $races data-race reports) | (VERIF_RACE=1 C20_RACE_PASS=1) |"
+    git -C /repo worktree remove --force "$WT"
+    continue;;
+  esac
   VERIF_REPO="$WT" VERIF_NOEVIDENCE=1 timeout 900 ./run.sh C20 quick > "$log" 2>&1
   rc=$?
   new=$(grep '^violation: ' "$log" | grep -vcF "$KNOWN")
